@@ -23,6 +23,7 @@ From Coq Require Import ZArith List Bool Lia.
    expressions regenerated from src/c/_cffi_backend.c into C03/Gen.v (tools/props/c03_regen.py, re-run by
    ./check C13), evaluated by the C-expression interpreter C03/CExpr.v *)
 From Cffi Require C03.CExpr C03.Gen C03.Model.      (* no Import: qualified names only *)
+From Cffi Require Import C13.Gen.                   (* regenerated: the two flattening loops of fb_fill_type *)
 Import ListNotations.
 Open Scope Z_scope.
 
@@ -683,4 +684,47 @@ Definition pyres_eqb (a b : pyres) : bool :=
   | RCData, RCData => true
   | RErr x, RErr y => exn_code x =? exn_code y
   | _, _ => false
+  end.
+
+(* ------------------------------------------------------------------ fb_fill_type: struct fields -> libffi elements[] *)
+(* src/c/_cffi_backend.c:5691-5745.  A field is (array dimensions outermost first, leaf size, leaf alignment); the leaf
+   is a primitive, a pointer, or a nested struct — which fb_fill_type turns into ONE element by a recursive call
+   that builds its own ffi_type (so everything below applies again, one level down).  The loops that count the items
+   of a (multi-dimensional) array field are not restated here: flat1_* / flat2_* / fill_count come from C13/Gen.v. *)
+Record field := mkfield { fdims : list Z; fsize : Z; falign : Z }.
+
+Definition count1 (dims : list Z) : Z := fold_left flat1_step dims flat1_init.               (* first pass *)
+Definition count2 (dims : list Z) : Z := fill_count (fold_left flat2_step dims flat2_init).  (* second pass *)
+Definition nflat (fs : list field) : Z := fold_left (fun n f => n + count1 (fdims f)) fs 0.  (* elements[] has nflat+1 slots *)
+Definition fill_refused (fs : list field) : bool := existsb (fun f => flat1_refused (count1 (fdims f))) fs.
+
+(* elements[nflat++] = ffifield, fill_count times per field *)
+Definition elements (fs : list field) : list (Z * Z) :=
+  flat_map (fun f => repeat (fsize f, falign f) (Z.to_nat (count2 (fdims f)))) fs.
+
+Definition roundup (off a : Z) : Z := (off + a - 1) / a * a.
+
+(* what libffi derives from elements[] (ffi_prep_cif / classification walk): every element at the next offset
+   aligned to its own alignment.  Result: (offset, size) of every element, and the end offset *)
+Fixpoint ffi_layout (off : Z) (elems : list (Z * Z)) : list (Z * Z) * Z :=
+  match elems with
+  | [] => ([], off)
+  | (s, a) :: rest =>
+      let o := roundup off a in
+      let (ls, e) := ffi_layout (o + s) rest in ((o, s) :: ls, e)
+  end.
+
+(* SPEC, written independently: where the C compiler puts the scalar leaves of the struct (natural layout; the code
+   refuses packed structs, bitfields and custom field positions before reaching this point) *)
+Definition product (dims : list Z) : Z := fold_right Z.mul 1 dims.
+Fixpoint c_leaves (off : Z) (n : nat) (s : Z) : list (Z * Z) :=
+  match n with O => [] | S n' => (off, s) :: c_leaves (off + s) n' s end.
+Fixpoint c_layout (off : Z) (fs : list field) : list (Z * Z) * Z :=
+  match fs with
+  | [] => ([], off)
+  | f :: rest =>
+      let o := roundup off (falign f) in
+      let n := Z.to_nat (product (fdims f)) in
+      let (ls, e) := c_layout (o + Z.of_nat n * fsize f) rest in
+      (c_leaves o n (fsize f) ++ ls, e)
   end.
